@@ -7,6 +7,7 @@ import (
 	"io"
 	"strings"
 
+	"github.com/freeconf/yang/fc"
 	"github.com/freeconf/yang/node"
 	"github.com/freeconf/yang/val"
 
@@ -47,6 +48,9 @@ func (self *JSONRdr) Node() (node.Node, error) {
 func (self *JSONRdr) decode() (map[string]interface{}, error) {
 	if self.values == nil {
 		d := json.NewDecoder(self.In)
+		// keep numbers as written, decoding into float64 silently changes 64-bit
+		// integers beyond 2^53
+		d.UseNumber()
 		if err := d.Decode(&self.values); err != nil {
 			return nil, err
 		}
@@ -55,7 +59,26 @@ func (self *JSONRdr) decode() (map[string]interface{}, error) {
 }
 
 func leafOrLeafListJsonReader(m meta.Leafable, data interface{}) (v val.Value, err error) {
-	return node.NewValue(m.Type(), data)
+	return node.NewValue(m.Type(), jsonNumbersAsText(data))
+}
+
+// a json.Number is the digits as they were written, conversion to the leaf's type parses them
+func jsonNumbersAsText(data interface{}) interface{} {
+	switch x := data.(type) {
+	case json.Number:
+		return x.String()
+	case []interface{}:
+		for _, item := range x {
+			if _, isNum := item.(json.Number); isNum {
+				cpy := make([]interface{}, len(x))
+				for i := range x {
+					cpy[i] = jsonNumbersAsText(x[i])
+				}
+				return cpy
+			}
+		}
+	}
+	return data
 }
 
 func JsonListReader(list []interface{}) node.Node {
@@ -69,7 +92,10 @@ func JsonListReader(list []interface{}) node.Node {
 			if r.First {
 				keyFields := r.Meta.KeyMeta()
 				for i := 0; i < len(list); i++ {
-					candidate := list[i].(map[string]interface{})
+					candidate, isObject := list[i].(map[string]interface{})
+					if !isObject {
+						return nil, nil, fmt.Errorf("%w. entry %d of list %s is not an object", fc.BadRequestError, i, r.Meta.Ident())
+					}
 					if jsonKeyMatches(keyFields, candidate, key) {
 						return JsonContainerReader(candidate), r.Key, nil
 					}
@@ -77,12 +103,15 @@ func JsonListReader(list []interface{}) node.Node {
 			}
 		} else {
 			if r.Row < len(list) {
-				container := list[r.Row].(map[string]interface{})
+				container, isObject := list[r.Row].(map[string]interface{})
+				if !isObject {
+					return nil, nil, fmt.Errorf("%w. entry %d of list %s is not an object", fc.BadRequestError, r.Row, r.Meta.Ident())
+				}
 				if len(r.Meta.KeyMeta()) > 0 {
 					keyData := make([]interface{}, len(r.Meta.KeyMeta()))
 					for i, kmeta := range r.Meta.KeyMeta() {
 						// Key may legitimately not exist when inserting new data
-						keyData[i] = fqkGetOrNil(kmeta, container)
+						keyData[i] = jsonNumbersAsText(fqkGetOrNil(kmeta, container))
 					}
 					if key, err = node.NewValues(r.Meta.KeyMeta(), keyData...); err != nil {
 						return nil, nil, err
@@ -156,9 +185,17 @@ func JsonContainerReader(container map[string]interface{}) node.Node {
 		}
 		if value, found := fqkGet(r.Meta, container); found {
 			if meta.IsList(r.Meta) {
-				return JsonListReader(value.([]interface{})), nil
+				list, isArray := value.([]interface{})
+				if !isArray {
+					return nil, fmt.Errorf("%w. list %s is not an array", fc.BadRequestError, r.Meta.Ident())
+				}
+				return JsonListReader(list), nil
 			}
-			return JsonContainerReader(value.(map[string]interface{})), nil
+			object, isObject := value.(map[string]interface{})
+			if !isObject {
+				return nil, fmt.Errorf("%w. container %s is not an object", fc.BadRequestError, r.Meta.Ident())
+			}
+			return JsonContainerReader(object), nil
 		}
 		return
 	}
@@ -191,7 +228,7 @@ func JsonContainerReader(container map[string]interface{}) node.Node {
 
 func jsonKeyMatches(keyFields []meta.Leafable, candidate map[string]interface{}, key []val.Value) bool {
 	for i, field := range keyFields {
-		if fqkGetOrNil(field, candidate) != key[i].String() {
+		if fmt.Sprint(fqkGetOrNil(field, candidate)) != key[i].String() {
 			return false
 		}
 	}
